@@ -62,6 +62,34 @@ def gen_and_expect(rng, bpc, nops):
         exp.append(res)
     while len(ops) < nops:
         r = rng.random()
+        if handles and rng.random() < 0.06:
+            # targeted: read cluster j, seek back to a cluster boundary i*bpc < j*bpc, overwrite through cluster j, read cluster j again
+            h = rng.choice(sorted(handles))
+            hd = handles[h]
+            size = len(hd.f.data)
+            if hd.reading and hd.writing and not hd.appending and size >= 2 * bpc + 2:
+                j = rng.randrange(1, size // bpc)
+                i0 = rng.randrange(0, j)
+                hd.pos = j * bpc
+                emit(["seek", h, hd.pos, 0], ("ok", hd.pos))
+                d1 = bytes(hd.f.data[hd.pos:hd.pos + 5])
+                hd.pos += len(d1)
+                emit(["read", h, 5], ("ok", d1))
+                hd.pos = i0 * bpc
+                emit(["seek", h, hd.pos, 0], ("ok", hd.pos))
+                n = (j - i0) * bpc + rng.choice([1, 7, bpc // 2])
+                n = min(n, size - hd.pos)
+                data = bytes(rng.randrange(1, 256) for _ in range(n))
+                hd.f.data[hd.pos:hd.pos + n] = data
+                hd.pos += n
+                emit(["write", h, data.hex()], ("ok", n))
+                hd.pos = j * bpc
+                emit(["seek", h, hd.pos, 0], ("ok", hd.pos))
+                d2 = bytes(hd.f.data[hd.pos:hd.pos + 9])
+                hd.pos += len(d2)
+                emit(["read", h, 9], ("ok", d2))
+                crossed = True
+                continue
         open_for = {}
         for h, hd in handles.items():
             open_for.setdefault(hd.f, []).append(hd)
@@ -123,7 +151,7 @@ def gen_and_expect(rng, bpc, nops):
             if not hd.writing:
                 emit(["write", h, data.hex()], ("err", "IOERR"))
                 continue
-            if hd.appending:
+            if hd.appending and n:        # an empty write issues no write at all: the position stays
                 hd.pos = size
             if n and (hd.pos // bpc) != ((hd.pos + n - 1) // bpc):
                 crossed = True
